@@ -70,11 +70,21 @@ fn remove_slot(slots: &[RawSlot], at: usize, x: usize) -> Option<Rose> {
 }
 
 fn one_op(start: &str, op: &str, rep: &mut Report, batch: &mut Batch) {
+    one_op_after(start, &[], op, rep, batch)
+}
+
+/// `prelude`: in-place edits of the tree object before the operation under test (branch lengths overwritten through the public
+/// setters, both records); the operation's contract is judged on the tree as it is after them
+fn one_op_after(start: &str, prelude: &[String], op: &str, rep: &mut Report, batch: &mut Batch) {
     let mut st = RealState::new();
     let mut case = Case::new();
     if case.step(&mut st, start, Cmp::Ignore) != "ok" {
         rep.count("start_rejected");
         return;
+    }
+    for p in prelude {
+        case.step(&mut st, p, Cmp::Class);
+        rep.count("lengths_overwritten_in_place_before_the_operation");
     }
     let before_slots = slots_of(&st.tree);
     let Some(before) = root_rose(&before_slots) else { return };
@@ -298,11 +308,16 @@ pub fn run(thorough: bool, seed: u64, driver: &str, rep: &mut Report) {
                         ops.push(format!("ar.prune\t{}", rng.below(n + 1)));
                     }
                 }
-                for op in ops {
-                    if op.starts_with("ar.add_child") || op.starts_with("ar.reset_depths") {
+                for (k, op) in ops.into_iter().enumerate() {
+                    if op.starts_with("ar.add_child") || op.starts_with("ar.add_copy") || op.starts_with("ar.setlen") || op.starts_with("ar.reset_depths") {
                         continue;
                     }
                     one_op(&start, &op, rep, batch);
+                    // ... and on the object after one or two of its branch lengths were overwritten in place
+                    if k % 3 == 0 && n >= 2 {
+                        let prelude: Vec<String> = (0..rng.range(1, 2)).map(|_| format!("ar.setlen\t{}\t{}", rng.below(n), scaled(gen_len(rng, LenKind::Dyadic)).unwrap())).collect();
+                        one_op_after(&start, &prelude, &op, rep, batch);
+                    }
                 }
             };
             if let Some(n) = job.nodes {
